@@ -378,10 +378,11 @@ MAT_RHS = ["copy", "neg", "lin", "scal", "ew", "ewdiv", "if", "elseif", "tr", "t
 #  accepted by the backend: no matrix-literal rhs)
 MAT_POSITIONS = {"quick": ["eq", "swap", "der", "init", "decl", "ifeq", "lhs-slice"],
                  "thorough": ["eq", "swap", "lhs-expr", "der", "init", "decl", "ifeq", "lhs-slice", "comp", "two-eq"]}
-# quick: every rhs form as a plain equation on the square shapes (a few on the non-square control),
-# every position on representatives
+# quick: every rhs form as a plain equation on 2x2 (representatives on 3x3 and on the non-square control),
+# every position on 2x2 representatives
 MAT_QUICK_POS_RHS = ["lin", "tr", "prod-r", "fun"]
 MAT_QUICK_NONSQUARE_RHS = ["lin", "tr", "prod-r", "if", "fun-tr"]
+MAT_QUICK_3X3_RHS = ["copy", "lin", "if", "tr", "tr-sum", "prod-r", "slice", "fun"]
 
 
 def matrix_rhs(kind, n, m):
@@ -488,6 +489,8 @@ def matrix_equation_models(tier):
                 continue
             if pos == "eq" and n != m and kind not in MAT_QUICK_NONSQUARE_RHS:
                 continue
+            if (n, m) == (3, 3) and kind not in MAT_QUICK_3X3_RHS:
+                continue
         if (n, m) == (4, 4) and (pos != "eq" or kind == "prod-sum"):
             continue
         if pos == "decl" and kind.startswith("fun") and (n, m, kind) != (2, 2, "fun"):
@@ -535,7 +538,7 @@ FUN_IF_CONDS = [
 FUN_IF_SHAPES = ["else", "elseif-first", "elseif-second", "elseif-both", "two-targets", "reads-target", "chain", "nested",
                  "cond-reads-target", "cond-after-update", "bool-local", "bool-arg", "after", "guard", "vec-target"]
 FUN_IF_CALLS = ["plain", "expr-arg", "nested-call", "two-calls", "in-loop", "in-ifexpr", "init"]
-FUN_IF_QUICK_SHAPES = ["else", "elseif-first"]
+FUN_IF_QUICK_SHAPES = ["else"]
 FUN_IF_QUICK_CONDS = ["rel", "or2", "or-and"]
 
 
